@@ -186,6 +186,12 @@ fn process_dir(
                 writeln!(&mut stderr(), "Error: {err}").unwrap();
             }
             Ok(entry) => {
+                // WalkDir clamps min_depth to max_depth, and it never sees the entries
+                // synthesised for broken symlinks, so enforce the lower bound here too.
+                if entry.depth() < config.min_depth {
+                    continue;
+                }
+
                 let mut matcher_io = matchers::MatcherIO::new(deps);
 
                 let new_dir = entry.path().parent().map(|x| x.to_path_buf());
